@@ -386,14 +386,14 @@ func (c c47Case) String() string {
 	case "present":
 		m = fmt.Sprintf("present_match=%v", s.Want)
 	default:
-		m = fmt.Sprintf("%s(%q)", s.Kind, s.Pat)
+		m = fmt.Sprintf("%s(%+q)", s.Kind, s.Pat)
 		if strings.HasPrefix(s.Kind, "sm-") {
 			m += fmt.Sprintf(" ignore_case=%v via=%s", s.IC, s.Via)
 		}
 	}
 	h := "header absent"
 	if c.Present {
-		h = fmt.Sprintf("header values=%q (joined %q = % x)", c.Values, c47Join(c.Values), c47Join(c.Values))
+		h = fmt.Sprintf("header values=%+q (joined bytes % x)", c.Values, c47Join(c.Values))
 	}
 	return fmt.Sprintf("%s invert=%v on %s", m, s.Inv, h)
 }
@@ -466,27 +466,65 @@ func (t *c47Tally) merge(o *c47Tally) {
 	}
 }
 
-// c47Eval evaluates one case on the real matcher; returns "" when it agrees
-// with the reference, else what the real code answered.
-func c47Eval(hm HeaderMatcher, sm *StringMatcher, c c47Case, t *c47Tally) {
+// c47Flush adds per-spec outcome counters to the tally.
+func c47Flush(s c47Spec, cnt *[2][2]int64, t *c47Tally) {
+	for pi := 0; pi < 2; pi++ {
+		for wi := 0; wi < 2; wi++ {
+			if cnt[pi][wi] > 0 {
+				t.outcomes[c47Outcome(s, pi == 1, wi == 1)] += cnt[pi][wi]
+			}
+		}
+	}
+}
+
+// c47OutcomeKeys caches the outcome-class strings.
+var c47OutcomeKeys sync.Map
+
+func c47Outcome(s c47Spec, present, want bool) string {
+	type k struct {
+		kind               string
+		inv, present, want bool
+	}
+	kk := k{s.Kind, s.Inv, present, want}
+	if v, ok := c47OutcomeKeys.Load(kk); ok {
+		return v.(string)
+	}
+	pr := "absent"
+	if present {
+		pr = "present"
+	}
+	v := fmt.Sprintf("%s/inv=%v/%s/want=%v", s.Kind, s.Inv, pr, want)
+	c47OutcomeKeys.Store(kk, v)
+	return v
+}
+
+func c47SafeMatch(hm HeaderMatcher, md metadata.MD) (got bool, pan any) {
+	defer func() { pan = recover() }()
+	return hm.Match(md), nil
+}
+
+func c47SafeSM(sm *StringMatcher, v string) (got bool, pan any) {
+	defer func() { pan = recover() }()
+	return sm.Match(v), nil
+}
+
+// c47Eval evaluates one case on the real matcher and records a failure when
+// it disagrees with the reference. md must be c47MD(c.Present, c.Values).
+func c47Eval(hm HeaderMatcher, sm *StringMatcher, c c47Case, md metadata.MD, t *c47Tally, cnt *[2][2]int64) {
 	want := c47Ref(c)
-	var got bool
-	var pan any
-	func() {
-		defer func() { pan = recover() }()
-		got = hm.Match(c47MD(c.Present, c.Values))
-	}()
+	got, pan := c47SafeMatch(hm, md)
 	t.evals++
 	if want {
 		t.match++
 	}
-	if t.outcomes != nil {
-		pr := "absent"
-		if c.Present {
-			pr = "present"
-		}
-		t.outcomes[fmt.Sprintf("%s/inv=%v/%s/want=%v", c.Spec.Kind, c.Spec.Inv, pr, want)]++
+	pi, wi := 0, 0
+	if c.Present {
+		pi = 1
 	}
+	if want {
+		wi = 1
+	}
+	cnt[pi][wi]++
 	if pan != nil {
 		t.fail(c, fmt.Sprintf("panic: %v", pan), want)
 		return
@@ -499,13 +537,9 @@ func c47Eval(hm HeaderMatcher, sm *StringMatcher, c c47Case, t *c47Tally) {
 	if sm != nil && c.Present && !c.Spec.Inv {
 		v := c47Join(c.Values)
 		base := c47RefBase(c.Spec, v)
-		var g2 bool
-		func() {
-			defer func() { pan = recover() }()
-			g2 = sm.Match(v)
-		}()
+		g2, pan := c47SafeSM(sm, v)
 		if pan != nil || g2 != base {
-			t.fail(c, fmt.Sprintf("StringMatcher.Match(%q)=%v panic=%v", v, g2, pan), base)
+			t.fail(c, fmt.Sprintf("StringMatcher.Match(%+q)=%v panic=%v", v, g2, pan), base)
 		}
 	}
 }
@@ -562,7 +596,9 @@ func TestVerif_C47_Matchers(t *testing.T) {
 			return
 		}
 		tl := c47NewTally()
-		c47Eval(hm, sm, c, tl)
+		var cnt [2][2]int64
+		c47Eval(hm, sm, c, c47MD(c.Present, c.Values), tl, &cnt)
+		c47Flush(c.Spec, &cnt, tl)
 		r.Eval(P, 1)
 		for k, b := range tl.fails {
 			f := b.best[0]
@@ -584,14 +620,15 @@ func TestVerif_C47_Matchers(t *testing.T) {
 	type hdr struct {
 		present bool
 		values  []string
+		md      metadata.MD // built once, only read by the matchers
 	}
-	hdrs := []hdr{{false, nil}}
+	hdrs := []hdr{{false, nil, c47MD(false, nil)}}
 	for _, v := range oneVals {
-		hdrs = append(hdrs, hdr{true, []string{v}})
+		hdrs = append(hdrs, hdr{true, []string{v}, c47MD(true, []string{v})})
 	}
 	for _, x := range singles {
 		for _, y := range singles {
-			hdrs = append(hdrs, hdr{true, []string{x, y}})
+			hdrs = append(hdrs, hdr{true, []string{x, y}, c47MD(true, []string{x, y})})
 		}
 	}
 
@@ -658,9 +695,11 @@ func TestVerif_C47_Matchers(t *testing.T) {
 			rejMu.Unlock()
 			return
 		}
+		var cnt [2][2]int64
 		for _, h := range hdrs {
-			c47Eval(hm, sm, c47Case{Spec: s, Present: h.present, Values: h.values}, tl)
+			c47Eval(hm, sm, c47Case{Spec: s, Present: h.present, Values: h.values}, h.md, tl, &cnt)
 		}
+		c47Flush(s, &cnt, tl)
 	})
 
 	// A rejected configuration is only legitimate for an empty pattern of a
